@@ -142,7 +142,7 @@ def gen_case(rng, hier, knobs=None):
             cls = 'self'
         models.append({'cls': cls, 'initial': rng.choice(names) if (i > 0 and rng.random() < 0.4) else None})
     models.sort(key=lambda md: md['initial'] is not None)     # constructor models first: machine.models order
-    desc = {'hier': hier, 'opts': opts, 'machine_cbs': machine_cbs, 'states': states, 'initial': rng.choice(tops),
+    desc = {'hier': hier, 'graph': rng.random() < knobs.get('p_graph', 0.25), 'opts': opts, 'machine_cbs': machine_cbs, 'states': states, 'initial': rng.choice(tops),
             'transitions': transitions, 'truth': truth, 'models': models, 'mods': [], 'history': []}
     # later modifications
     pool = list(names)
@@ -151,12 +151,13 @@ def gen_case(rng, hier, knobs=None):
         kind = rng.choice(['add_state', 'add_transition', 'add_transition', 'remove_transition', 'state_cb', 'state_cb',
                            'trans_cb', 'trigger', 'trigger'] + (['helper_cb'] if hier and knobs.get('helper', True) else []))
         if kind == 'add_state':
-            free = [n for n in ['E', 'F', 'G'] if n not in pool]
+            free = [n for n in ['E', 'F', 'G', 'H'] if n not in pool]
             if not free:
                 continue
-            st = _gen_state(g, free[0], hier, 1, knobs)      # depth 1: at most one more level
-            pool += all_names([st])
-            desc['mods'].append(['add_state', st])
+            sts = [_gen_state(g, n, hier, 1, knobs)       # depth 1: at most one more level
+                   for n in free[:rng.choice([1, 1, 2, 3])]]
+            pool += all_names(sts)
+            desc['mods'].append(['add_state', sts[0]] if len(sts) == 1 and rng.random() < 0.5 else ['add_states', sts])
         elif kind == 'add_transition':
             t = {'trigger': rng.choice(trig + ['new%d' % rng.randint(0, 1)]),
                  'source': rng.choice(pool) if rng.random() < 0.85 else '*',
@@ -263,14 +264,17 @@ def realise_trans(t):
     return d
 
 
-def machine_cls(hier):
+def machine_cls(hier, graph=False):
+    if graph:
+        return mm.HierGM if hier else mm.FlatGM
     return mm.HierMM if hier else mm.FlatMM
 
 
 def build(desc):
     """construct the machine of the description (constructor part only); returns the machine"""
     hier = desc['hier']
-    cls = machine_cls(hier)
+    graph = desc.get('graph', False)
+    cls = machine_cls(hier, graph)
     ctor_models, later = [], []
     for md in desc['models']:
         obj = cls.self_literal if md['cls'] == 'self' else mm.MODEL_CLASSES[md['cls']]()
@@ -280,6 +284,8 @@ def build(desc):
             later.append((obj, md['initial']))
     o = desc['opts']
     kw = {k: _arg(v) for k, v in desc['machine_cbs'].items() if v}
+    if graph:
+        kw['graph_engine'] = 'mermaid'
     m = cls(model=ctor_models, states=[realise_state(s, hier) for s in desc['states']], initial=desc['initial'],
             transitions=[realise_trans(t) for t in desc['transitions']], queued=o['queued'],
             send_event=o['send_event'], auto_transitions=o['auto_transitions'],
@@ -308,8 +314,11 @@ def fire(machine, midx, name, log=None):
 
 def apply_mod(machine, mod):
     k = mod[0]
+    hier = issubclass(machine.state_cls, NestedState)
     if k == 'add_state':
-        machine.add_states(realise_state(mod[1], isinstance(machine, mm.HierMM)))
+        machine.add_states(realise_state(mod[1], hier))
+    elif k == 'add_states':      # one call with a list mixing compound and plain definitions
+        machine.add_states([realise_state(st, hier) for st in mod[1]])
     elif k == 'add_transition':
         machine.add_transition(**realise_trans(mod[1]))
     elif k == 'remove_transition':
@@ -427,6 +436,9 @@ class Expect(object):
         k = mod[0]
         if k == 'add_state':
             self.add_state(mod[1])
+        elif k == 'add_states':
+            for st in mod[1]:
+                self.add_state(st)
         elif k == 'add_transition':
             self.add_transition(mod[1])
         elif k == 'remove_transition':
